@@ -37,10 +37,11 @@ func buildNative(race bool) (*nativeBuild, error) {
 		return nil, err
 	}
 	nb := &nativeBuild{dir: dir, bin: filepath.Join(dir, "zz.test"), overlay: filepath.Join(dir, "overlay.json"), race: race}
+	cleanups = append(cleanups, nb.cleanup)
 	if err := writeOverlay(nb.overlay); err != nil {
 		return nil, err
 	}
-	args := []string{"test", "-c", "-vet=off", "-tags", "verif", "-overlay", nb.overlay, "-o", nb.bin}
+	args := []string{"test", "-c", "-vet=off", "-tags", "verif", modfileFlag(), "-overlay", nb.overlay, "-o", nb.bin}
 	if race {
 		args = append(args, "-race")
 	}
@@ -175,8 +176,8 @@ func cmdReplay(args []string) {
 	}
 	if ok {
 		fmt.Printf("REPLAY: violation reproduced: %v\n", m.Expect)
-		os.Exit(1)
+		exit(1)
 	}
 	fmt.Printf("REPLAY: not reproduced (expected %v, got %v)\n", m.Expect, res.Failures)
-	os.Exit(0)
+	exit(0)
 }
